@@ -464,6 +464,16 @@ def main():
                                    "note": "a theorem of props/%s.v (or the build of the development) no longer checks" % prop})
         violations.append((p, " no-failing-input-found"))
 
+    coqchk_summary = None
+    if tier == "thorough" and ok and not obl["failed"]:
+        # independent re-check of the compiled property file and everything it depends on
+        r = run(["timeout", "3000", "coqchk", "-silent", "-o", "-Q", COQ, "Rosmar", "Rosmar.props." + prop], cwd=COQ)
+        tail = r.stdout[-1500:]
+        coqchk_summary = " | ".join(l.strip() for l in tail.splitlines() if l.strip())[-900:]
+        if r.returncode != 0 or "* Axioms: <none>" not in r.stdout:
+            obl["failed"].append("coqchk does not accept props/%s.v with no axioms: %s" % (prop, coqchk_summary))
+            p = write_replay("coqchk", {"property": prop, "kind": "proof-obligation", "broken": obl["failed"], "coqchk": coqchk_summary})
+            violations.append((p, " no-failing-input-found"))
     log("[%s] proofs checked in %.1fs" % (prop, time.time() - t0))
     # 2. correspondence --------------------------------------------------------------------
     binary, blog = build_harness(scratch)
@@ -619,6 +629,7 @@ def main():
             "checker_cmd": "cd coq && coq_makefile -f _CoqProject -o Makefile && make -j16 && coqc -Q . Rosmar props/%s.v  (Print Assumptions under every theorem)" % prop,
             "trusted_base": spec.get("trusted_base", propsmod.TRUSTED_BASE) + ["Print Assumptions output: " + (obl["assumptions_output"].replace("\n", " | ")[:1500] or "(none)")],
             "theorems": obl["theorems"],
+            "coqchk": coqchk_summary or "(thorough tier only)",
             "evaluations": total_eval,
             "traces_validated_against_impl": total_valid,
             "distinct_nontrivial": len(cells),
